@@ -29,6 +29,7 @@ type timePoint struct {
 	Fn     string `json:"fn"`
 	Unit   string `json:"unit"`
 	Amount int    `json:"amount"`
+	Amt    string `json:"amt"` // interval amount as written ("7", "2.5")
 	Origin string `json:"origin"`
 	Era    int    `json:"era"`
 	S      int64  `json:"s"`
@@ -132,12 +133,12 @@ func tsLiteral(sec int64, subTicks, tps int64) string {
 }
 
 type caseKey struct {
-	Fn, Unit, Origin string
-	Amount, Era      int
+	Fn, Unit, Origin, Amt string
+	Era                   int
 }
 
 func (k caseKey) String() string {
-	return fmt.Sprintf("%s/%d %s/origin=%s/era=%d", k.Fn, k.Amount, k.Unit, k.Origin, k.Era)
+	return fmt.Sprintf("%s/%s %s/origin=%s/era=%d", k.Fn, k.Amt, k.Unit, k.Origin, k.Era)
 }
 
 type concRow struct {
@@ -209,7 +210,10 @@ func c17Time(env *sr.Env, in *c17Input, res *c17Result, keys map[string]bool,
 	var order []caseKey
 	for i := range in.Time {
 		p := &in.Time[i]
-		k := caseKey{p.Fn, p.Unit, p.Origin, p.Amount, p.Era}
+		if p.Amt == "" {
+			p.Amt = fmt.Sprint(p.Amount)
+		}
+		k := caseKey{p.Fn, p.Unit, p.Origin, p.Amt, p.Era}
 		if _, ok := groups[k]; !ok {
 			order = append(order, k)
 		}
@@ -272,18 +276,18 @@ func c17Time(env *sr.Env, in *c17Input, res *c17Result, keys map[string]bool,
 		}
 		var qs []q
 		unit := k.Unit
-		if k.Amount != 1 {
+		if k.Amt != "1" {
 			unit += "s"
 		}
 		switch k.Fn {
 		case "time_bucket2":
-			qs = []q{{all: true, exprs: fmt.Sprintf("time_bucket(INTERVAL '%d %s', t)", k.Amount, unit)}}
+			qs = []q{{all: true, exprs: fmt.Sprintf("time_bucket(INTERVAL '%s %s', t)", k.Amt, unit)}}
 		case "date_trunc":
 			qs = []q{{all: true, exprs: fmt.Sprintf("date_trunc('%s', t)", k.Unit)}}
 		case "time_bucket3":
 			for _, b := range basesFor(k.Era) {
-				qs = append(qs, q{base: b, exprs: fmt.Sprintf("time_bucket(INTERVAL '%d %s', t, TIMESTAMP '%s')",
-					k.Amount, unit, tsLiteral(b+p0.Ro, p0.OoSub, tps))})
+				qs = append(qs, q{base: b, exprs: fmt.Sprintf("time_bucket(INTERVAL '%s %s', t, TIMESTAMP '%s')",
+					k.Amt, unit, tsLiteral(b+p0.Ro, p0.OoSub, tps))})
 			}
 		}
 		byID := map[int64]*concRow{}
@@ -545,8 +549,8 @@ func c17URL(env *sr.Env, in *c17Input, res *c17Result, keys map[string]bool, rng
 	ctx := context.Background()
 	// input classes: scheme x www x host x rest
 	type part struct{ name, text string }
-	schemes := []part{{"https", "https://"}, {"http", "http://"}, {"upper-scheme", "HTTPS://"}, {"other-scheme", "ftp://"}, {"no-scheme", ""}, {"scheme-inside", "x https://"}}
-	wwws := []part{{"www", "www."}, {"bare", ""}}
+	schemes := []part{{"https", "https://"}, {"http", "http://"}, {"upper-scheme", "HTTPS://"}, {"mixed-scheme", "Http://"}, {"other-scheme", "ftp://"}, {"no-scheme", ""}, {"scheme-inside", "x https://"}}
+	wwws := []part{{"www", "www."}, {"bare", ""}, {"upper-www", "WWW."}, {"mixed-www", "Www."}}
 	hosts := []string{"example.com", "a.b.co.uk", "localhost:8080", "xn--d1acufc.xn--p1ai", "user@host.io", "EXAMPLE.org", "www2.site.net", "1.2.3.4"}
 	rests := []part{{"no-slash-after-host", ""}, {"root-slash", "/"}, {"path", "/a/b.html"}, {"query", "/s?q=http://other.com/x"}, {"query-no-path", "?q=1"}, {"fragment-no-path", "#top"}, {"newline-in-path", "/a\nb"}, {"double-slash", "//x"}}
 	env.Plain.Exec("DROP TABLE IF EXISTS urls")
